@@ -144,7 +144,7 @@ int main(void)
 		uint64_t a, lo, hi;
 		uint8_t *bytes = NULL;
 		long len;
-		if (strcmp(line, "#case") == 0) { puts("#case"); continue; }
+		if (strcmp(line, "#case") == 0) { puts("#case"); fflush(stdout); continue; }
 		nw = hc_words(line, w, 8);
 		if (nw == 5 && !strcmp(w[0], "win") && (!strcmp(w[1], "v") || !strcmp(w[1], "g")) &&
 		    parse_u64(w[2], &a) && parse_u64(w[3], &lo) && parse_u64(w[4], &hi) &&
